@@ -201,7 +201,7 @@ package errutil
 // ---- the special-case printer (C03): what it prints as safe ----
 
 //@ func specialCaseFormat
-//@   props C03 C01 C09
+//@   props C03 C01 C09 C10
 //@   requires err != nil && p != nil
 //@   requires isLeaf ==> cause1(err) == nil && len(causes(err)) == 0
 //@   uses isany_leaf_text
@@ -209,10 +209,12 @@ package errutil
 // text that the type's own Error() puts in front of ": <cause>" - this is the text extractPrefix
 // sends over the network for these (unregistered) types, so anything else makes the %v rendering
 // of an enclosing node differ before and after a hop
-//@   ensures[C01,C09] !isLeaf && typeis(err, *net.OpError) ==> $ptext == old($ptext) + opErrHead(err.(*net.OpError))
-//@   ensures[C01,C09] !isLeaf && typeis(err, *os.PathError) ==> $ptext == old($ptext) + err.(*os.PathError).Op + " " + err.(*os.PathError).Path
-//@   ensures[C01,C09] !isLeaf && typeis(err, *os.LinkError) ==> $ptext == old($ptext) + err.(*os.LinkError).Op + " " + err.(*os.LinkError).Old + " " + err.(*os.LinkError).New
-//@   ensures[C01,C09] !isLeaf && typeis(err, *os.SyscallError) ==> $ptext == old($ptext) + err.(*os.SyscallError).Syscall
+//@   ensures[C01,C09,C10] !isLeaf && typeis(err, *net.OpError) && !(err.(*net.OpError).Source != nil && err.(*net.OpError).Addr != nil) ==> $ptext == old($ptext) + opErrHead(err.(*net.OpError))
+//@   ensures[C01,C09,C10] !isLeaf && typeis(err, *os.PathError) ==> $ptext == old($ptext) + err.(*os.PathError).Op + " " + err.(*os.PathError).Path
+//@   ensures[C01,C09,C10] !isLeaf && typeis(err, *os.LinkError) ==> $ptext == old($ptext) + err.(*os.LinkError).Op + " " + err.(*os.LinkError).Old + " " + err.(*os.LinkError).New
+//@   ensures[C01,C09,C10] !isLeaf && typeis(err, *os.SyscallError) ==> $ptext == old($ptext) + err.(*os.SyscallError).Syscall
+// the source-and-address form on its own (known finding: ' -> ' instead of '->', see /verif/known_findings.json)
+//@   ensures[C01,C09,C10] !isLeaf && typeis(err, *net.OpError) && err.(*net.OpError).Source != nil && err.(*net.OpError).Addr != nil ==> $ptext == old($ptext) + opErrHead(err.(*net.OpError))
 
 //@ method (*leafError).SafeDetails
 //@   props C03 C12
